@@ -192,6 +192,8 @@ func checkC01(c *Ctx, p *Prog, r *Result) {
 		r.requireAtReturns(f, "C01.entry-index-echo", fn, fn.Signature.Results().Len()-1, []Atom{"entry-index-eq"})
 	}
 
+	fallibleHashRule(p, r, "C01.hmac-error-checked", []*ssa.Function{root}, 2)
+
 	r.rule("C01.no-credential-with-error", "TO2 never returns a non-nil credential together with a non-nil error")
 	r.floor("C01.no-credential-with-error", 5)
 	for _, b := range root.Blocks {
